@@ -124,6 +124,8 @@ struct Log {
     last_pending_waker: Option<u8>,
     receiver_gone: bool,
     lost_wake: Option<u8>,
+    probes_ok: u32,
+    probe_failure: Option<String>,
 }
 
 trait WorldDyn {
@@ -140,6 +142,8 @@ struct World<S: Snd, R: Rcv> {
     ledger: Arc<Ledger>,
     log: RefCell<Log>,
     released_now: Cell<bool>,
+    reuse: Option<Rc<dyn Fn(&Arc<Ledger>) -> ProbeCheck>>,
+    probes: RefCell<Vec<ProbeCheck>>,
     /// (address, length) of embedded storage, if the harness owns it
     embedded: Cell<Option<(usize, usize)>>,
     self_cb: RefCell<Option<WakerCallback>>,
@@ -328,6 +332,12 @@ impl<S: Snd, R: Rcv> World<S, R> {
         };
         // the operation that released the storage has returned: from here on nobody may write it
         if self.released_now.replace(false) {
+            if let Some(mk) = &self.reuse {
+                // the slot is free again: a caller may rent it at once, even from inside the
+                // callback that is still running under the other endpoint's operation
+                let probe = mk(&self.ledger);
+                self.probes.borrow_mut().push(probe);
+            }
             if let Some((addr, len)) = self.embedded.get() {
                 // The event is gone and the container is plain uninitialised storage that belongs
                 // to its owner (the harness) again: the owner scribbles over it, as a caller that
@@ -378,10 +388,38 @@ impl<S: Snd, R: Rcv> WorldDyn for World<S, R> {
     }
 }
 
+/// Run at the very end of a case: checks that an event rented into the storage the case's event
+/// had released is still intact and works.
+type ProbeCheck = Box<dyn FnOnce() -> Result<(), String>>;
+
 struct Finish {
     /// Some(len) for pools / lakes once both endpoints are gone
     pool_len: Box<dyn FnOnce() -> Option<usize>>,
     embedded: Option<(usize, usize)>,
+    /// pool / lake storage: rents a fresh event from the same pool (it lands in the slot that
+    /// was just released - storage "can be re-rented immediately") and returns its end-of-case check
+    reuse: Option<Rc<dyn Fn(&Arc<Ledger>) -> ProbeCheck>>,
+}
+
+const PROBE: u64 = 0x7E57_7E57;
+
+/// Keeps both endpoints of a probe event until the end of the case, then sends through it.
+fn probe_check<S: Snd, R: Rcv>(s: S, r: R, ledger: &Arc<Ledger>) -> ProbeCheck {
+    let ledger = Arc::clone(ledger);
+    Box::new(move || {
+        if r.ready() {
+            return Err("the probe event rented into the released slot reports ready although nothing was sent".into());
+        }
+        s.send_value(Tracked::new(PROBE, &ledger, false));
+        match r.value() {
+            Ok(t) => match t.read() {
+                Some(PROBE) => Ok(()),
+                other => Err(format!("the probe event rented into the released slot delivered {other:?} instead of the value sent")),
+            },
+            Err(IntoValueError::Disconnected) => Err("the probe event rented into the released slot reports Disconnected after a send".into()),
+            Err(IntoValueError::Pending(_)) => Err("the probe event rented into the released slot is still pending after a send".into()),
+        }
+    })
 }
 
 fn execute<S: Snd, R: Rcv>(case: &Case, s: S, r: R, fin: Finish) -> (Log, Arc<Ledger>, Option<usize>, Option<bool>, Option<String>) {
@@ -395,6 +433,8 @@ fn execute<S: Snd, R: Rcv>(case: &Case, s: S, r: R, fin: Finish) -> (Log, Arc<Le
         ledger: Arc::clone(&ledger),
         log: RefCell::new(Log::default()),
         released_now: Cell::new(false),
+        reuse: fin.reuse.clone(),
+        probes: RefCell::new(Vec::new()),
         embedded: Cell::new(fin.embedded),
         self_cb: RefCell::new(None),
         same_identity: case.same_identity,
@@ -433,8 +473,23 @@ fn execute<S: Snd, R: Rcv>(case: &Case, s: S, r: R, fin: Finish) -> (Log, Arc<Le
             _ => None,
         }
     };
+    // probe events rented into the released slot: still intact and working? (callbacks and the
+    // release hook are off by now, so this does not count as activity of the case's own event)
+    let mut panicked = panicked;
+    let probes: Vec<ProbeCheck> = std::mem::take(&mut *world.probes.borrow_mut());
+    let mut log = std::mem::take(&mut *world.log.borrow_mut());
+    if panicked.is_none() {
+        for p in probes {
+            match vcommon::catch(p) {
+                Ok(Ok(())) => log.probes_ok += 1,
+                Ok(Err(m)) => log.probe_failure = Some(m),
+                Err(m) => panicked = Some(format!("while using a probe event rented into the released slot: {m}")),
+            }
+        }
+    } else {
+        std::mem::forget(probes);
+    }
     let pool_len = if panicked.is_none() { (fin.pool_len)() } else { None };
-    let log = std::mem::take(&mut *world.log.borrow_mut());
     (log, ledger, pool_len, unchanged, panicked)
 }
 
@@ -442,7 +497,7 @@ fn run_storage(case: &Case) -> (Log, Arc<Ledger>, Option<usize>, Option<bool>, O
     match case.storage % 6 {
         0 => {
             let (s, r) = LocalEvent::<Tracked>::boxed();
-            execute(case, s, r, Finish { pool_len: Box::new(|| None), embedded: None })
+            execute(case, s, r, Finish { pool_len: Box::new(|| None), embedded: None, reuse: None })
         }
         1 => {
             let mut place = Box::pin(EmbeddedLocalEvent::<Tracked>::new());
@@ -460,30 +515,41 @@ fn run_storage(case: &Case) -> (Log, Arc<Ledger>, Option<usize>, Option<bool>, O
                         None
                     }),
                     embedded: Some((addr, len)),
+                    reuse: None,
                 },
             )
         }
         2 => {
-            let pool = LocalEventPool::<Tracked>::new();
+            let pool = Rc::new(LocalEventPool::<Tracked>::new());
             let (s, r) = pool.rent();
-            execute(case, s, r, Finish { pool_len: Box::new(move || Some(pool.len())), embedded: None })
+            let p2 = Rc::clone(&pool);
+            let reuse: Rc<dyn Fn(&Arc<Ledger>) -> ProbeCheck> = Rc::new(move |ledger| {
+                let (ps, pr) = p2.rent();
+                probe_check(ps, pr, ledger)
+            });
+            execute(case, s, r, Finish { pool_len: Box::new(move || Some(pool.len())), embedded: None, reuse: Some(reuse) })
         }
         3 => {
             let pool = Box::pin(RawLocalEventPool::<Tracked>::new());
             // SAFETY: the pool outlives both endpoints.
             let (s, r) = unsafe { pool.as_ref().rent() };
-            execute(case, s, r, Finish { pool_len: Box::new(move || Some(pool.len())), embedded: None })
+            execute(case, s, r, Finish { pool_len: Box::new(move || Some(pool.len())), embedded: None, reuse: None })
         }
         4 => {
-            let lake = LocalEventLake::new();
+            let lake = Rc::new(LocalEventLake::new());
             let (s, r) = lake.rent::<Tracked>();
-            execute(case, s, r, Finish { pool_len: Box::new(move || Some(lake.len())), embedded: None })
+            let l2 = Rc::clone(&lake);
+            let reuse: Rc<dyn Fn(&Arc<Ledger>) -> ProbeCheck> = Rc::new(move |ledger| {
+                let (ps, pr) = l2.rent::<Tracked>();
+                probe_check(ps, pr, ledger)
+            });
+            execute(case, s, r, Finish { pool_len: Box::new(move || Some(lake.len())), embedded: None, reuse: Some(reuse) })
         }
         _ => {
             let lake = RawLocalEventLake::new();
             // SAFETY: the lake outlives both endpoints.
             let (s, r) = unsafe { lake.rent::<Tracked>() };
-            execute(case, s, r, Finish { pool_len: Box::new(move || Some(lake.len())), embedded: None })
+            execute(case, s, r, Finish { pool_len: Box::new(move || Some(lake.len())), embedded: None, reuse: None })
         }
     }
 }
@@ -502,6 +568,12 @@ fn check(case: &Case, ctx: &mut Ctx) -> Verdict {
     }
     if log.max_depth >= 3 {
         ctx.classify("nesting>=3");
+    }
+    if log.probes_ok > 0 {
+        ctx.classify("released-slot-re-rented-at-once");
+    }
+    if let Some(m) = &log.probe_failure {
+        return Err(f("release/re-rented-slot-corrupted", m.clone()));
     }
     if let Some(m) = panicked {
         return Err(f(&format!("panic/{}", vcommon::normalise(&m).chars().take(60).collect::<String>()), format!("the library panicked: {m}")));
